@@ -429,8 +429,10 @@ Section Parser.
           let ok := (aps || match tpre t with [] => true | _ => false end) && opening_ok in
           if negb ok then
             if optional then Ok (ONode None) (tpos t - length (tpre t))
-            else PErr (mkerr (Some (tpos t)) 7 (Some (NList (Some (tpos t)) (Some (tpos t)) [])) true (Some t) None)
-                      (tend t)
+            else
+              (* the placeholder list sits where the reader is rewound to (fix: before the pre-space) *)
+              let rp := tpos t - length (tpre t) in
+              PErr (mkerr (Some (tpos t)) 7 (Some (NList (Some rp) (Some rp) [])) true (Some t) None) (tend t)
           else
           let parsed : option (str * str) :=
               match d with
